@@ -285,7 +285,7 @@ def float_term(f: float):
 
 def float_of(t) -> float:
     if t[0] == "FNan":
-        return math.nan
+        return float("nan")      # a fresh object: containers compare members by identity first, the model by value only
     if t[0] == "FInf":
         return -math.inf if t[1] else math.inf
     _, neg, m, e = t
